@@ -24,6 +24,11 @@ func init() {
 		Kernels: []Kernel{
 			{Name: "mutations", Pkg: ".", Files: files, Entry: "VerifMutations", Mode: "seq", Native: true,
 				Reach: []string{"with a downstream failure", "healthy"}, Functions: pipelineFns},
+			// the same under other iteration orders of the planner's maps (the order of the root steps of a plan
+			// follows a map; what is done to a plan that the cache hands out again may depend on it)
+			{Name: "mutations-map-orders", Pkg: ".", Files: files, Entry: "VerifMutations", Mode: "seq",
+				Quick: map[string]int{"maporder": 1, "healthyonly": 1}, Thorough: map[string]int{"maporder": 2, "healthyonly": 1},
+				Reach: []string{"healthy"}, Functions: pipelineFns},
 		},
 		Assume:  []string{"gqlparser runs natively on concrete strings", "one canonical goroutine schedule", "single fault: one downstream call of one service fails"},
 		Outside: []string{"mutation operations beyond the scenario list", "sequences of several faults"},
